@@ -39,6 +39,10 @@ def run(check: Check) -> None:
     from . import wiring
 
     wiring.p1_process_phases(check)  # every output is defuzzified once per process(), after all rule blocks: "previous" = before the call
+    from .pyroundtrip_sem import constructor_fidelity
+
+    # "if a default value is set": the flags and the default the cascade reads are the ones the variable was built with
+    constructor_fidelity(check, bases=("Variable",))
     cascade(check)
     setter(check)
     clear(check)
